@@ -635,11 +635,17 @@ impl Sess {
             .name("vfilter-light-poller".into())
             .spawn(move || {
                 let rt = tokio::runtime::Builder::new_current_thread().enable_all().build().unwrap();
-                let mut out = vec![];
-                while !stop2.load(Ordering::SeqCst) && out.len() < 4000 {
-                    out.push(light::raw_last_state(&shared, &rt));
+                let (mut out, mut out2) = (vec![], vec![]);
+                let mut i = 0u64;
+                while !stop2.load(Ordering::SeqCst) && out.len() + out2.len() < 4000 {
+                    i += 1;
+                    if i % 2 == 0 {
+                        out.push(light::raw_last_state(&shared, &rt));
+                    } else {
+                        out2.push(light::raw_blocks_proof(&shared, &rt, i.wrapping_mul(0x9e3779b97f4a7c15) >> 20));
+                    }
                 }
-                out
+                (out, out2)
             })
             .unwrap();
         {
@@ -661,13 +667,14 @@ impl Sess {
         std::thread::sleep(Duration::from_millis(2));
         stop.store(true, Ordering::SeqCst);
         hooks::set_plan(hooks::DelayPlan::default());
-        let replies = poller.join().unwrap_or_default();
+        let (replies, proofs) = poller.join().unwrap_or_default();
         if !ok {
             return;
         }
         r.count("light_race.episodes");
         let ctx = light::Ctx { si: self.si, params: &self.params_desc, ops: &self.ops, at: "light race: while branch B was delivered" };
         lt.judge_concurrent_last_states(&self.tg.rc, &self.delivered, &acceptable, replies, &ctx);
+        lt.judge_concurrent_blocks_proofs(&self.tg.rc, &self.delivered, &acceptable, proofs, &ctx);
         if self.n_tip() == *b.last().unwrap() {
             self.light_probe(lt, "light race: on branch B", 4);
         }
